@@ -88,6 +88,13 @@ def step (_ : Unit) (line : String) : Unit × String :=
   let t := words line
   match t with
   | "author" :: rest => ((), runAuthor rest)
+  | "wchange" :: rest =>
+    match (kv rest "acct").bind AcctKind.ofString, (kv rest "rate").bind String.toInt?, (kv rest "coin").bind String.toInt?,
+          (kv rest "pay").bind String.toInt?, Script.ofToken "wpkh" with
+    | some k, some rate, some _, some pay, some sc =>
+      let cs := k.changeSize
+      ((), s!"wchange nin=1 chg={if cs == 23 then "nested" else "p2wpkh"} chglen={cs} fee={walletChangeFee k rate [⟨pay, sc⟩]}")
+    | _, _, _, _, _ => ((), "bad-op")
   | "script" :: rest =>
     match (kv rest "tok").bind Script.ofToken with
     | some s => ((), s!"script len={s.len} sh={b01 s.isP2SH} wpkh={b01 s.isP2WPKH} tr={b01 s.isP2TR} wit={b01 s.isWitness} unsp={b01 s.isUnspendable} nd={b01 s.isNullData}")
